@@ -115,6 +115,8 @@ def argkey(e):
         return "%s(..)" % hir.callee_name(e)
     if e["k"] == "Closure":
         return "<closure>"
+    if e["k"] == "Match" and "TryDesugar" in str(e.get("source", "")):
+        return "·"          # `f(x?)` and `let v = x?; f(v)`: the value of a `?` is an anonymous local either way
     return "<%s>" % e["k"]
 
 
